@@ -1,4 +1,4 @@
-From Coq Require Import String List NArith Bool Lia Arith.
+From Coq Require Import String List NArith Bool Lia Arith Sorted.
 From Fabio Require Import Lib.Outcome Lib.Bytes Model.CertStore.
 Import ListNotations.
 Local Open Scope N_scope.
@@ -11,20 +11,45 @@ Definition last_with (certs : list cert) (i : nat) (n : str) : Prop :=
   has_name certs i n /\ forall j, (i < j)%nat -> ~ has_name certs j n.
 Definition none_with (certs : list cert) (n : str) : Prop := forall i, ~ has_name certs i n.
 
-(* [name] is the requested server name, lower-cased and without trailing dots *)
+(* ---- "a wildcard covers the name", label by label: the pattern has as many labels as
+   the name, its first [s] >= 1 labels are "*", the others are the name's own ---- *)
+Definition star : str := [42].
+Definition covers_with (s : nat) (ps ns : list str) : Prop :=
+  (1 <= s <= length ns)%nat /\ ps = repeat star s ++ skipn s ns.
+Definition covers (s : nat) (pat name : str) : Prop :=
+  covers_with s (split_byte pat 46) (split_byte name 46).
+
+(* [name] is the requested server name, lower-cased and without trailing dots.  What the
+   code does: exact name (the last loaded certificate among several), else the covering
+   wildcard with the fewest stars (again the last loaded), else the default *)
 Inductive selects (certs : list cert) (strict : bool) (name : str) : pick -> Prop :=
 | sel_exact i :
     last_with certs i name -> selects certs strict name (PCert i)
-| sel_wild k i :
+| sel_wild s pat i :
     none_with certs name ->
-    (k < length (split_byte name 46))%nat ->
-    (forall k', (k' < k)%nat -> none_with certs (candidate (split_byte name 46) k')) ->
-    last_with certs i (candidate (split_byte name 46) k) ->
+    covers s pat name ->
+    (forall s' pat', (s' < s)%nat -> covers s' pat' name -> none_with certs pat') ->
+    last_with certs i pat ->
     selects certs strict name (PCert i)
 | sel_default :
     none_with certs name ->
-    (forall k, (k < length (split_byte name 46))%nat -> none_with certs (candidate (split_byte name 46) k)) ->
+    (forall s pat, covers s pat name -> none_with certs pat) ->
     selects certs strict name (if strict then PNone else PCert 0).
+
+(* what the property demands, and no more: a certificate carrying the name, otherwise one
+   carrying a wildcard that covers it, otherwise the first / none *)
+Definition presents (certs : list cert) (strict : bool) (name : str) (p : pick) : Prop :=
+  (exists i, p = PCert i /\ has_name certs i name) \/
+  (none_with certs name /\ exists i s pat, p = PCert i /\ covers s pat name /\ has_name certs i pat) \/
+  (none_with certs name /\ (forall s pat, covers s pat name -> none_with certs pat) /\
+   p = if strict then PNone else PCert 0).
+Lemma selects_presents certs strict name p : selects certs strict name p -> presents certs strict name p.
+Proof.
+  intros [i [H _] | s pat i Hn Hc _ [H _] | Hn Hw].
+  - left. now exists i.
+  - right. left. split; [exact Hn|]. now exists i, s, pat.
+  - right. right. now repeat split.
+Qed.
 
 (* ================= the index ================= *)
 Lemma lookup_last_app a b n :
@@ -111,6 +136,87 @@ Proof.
   intros H. apply last_idx_some in H as ((c & Hc & _) & _). apply nth_error_Some. congruence.
 Qed.
 
+(* ================= strings.Split / strings.Join on '.', and the candidates ================= *)
+Definition no_dot (l : str) : bool := forallb (fun c => negb (c =? 46)) l.
+Lemma split_no_dot l : no_dot l = true -> split_byte l 46 = [l].
+Proof.
+  induction l as [|x l IH]; cbn [split_byte no_dot forallb]; [reflexivity|].
+  intros H. apply andb_true_iff in H as [H1 H2]. apply negb_true_iff in H1.
+  rewrite H1, (IH H2). reflexivity.
+Qed.
+Lemma split_app_dot x r : no_dot x = true -> split_byte (x ++ 46 :: r) 46 = x :: split_byte r 46.
+Proof.
+  induction x as [|y x IH]; cbn [app split_byte no_dot forallb].
+  - intros _. reflexivity.
+  - intros H. apply andb_true_iff in H as [H1 H2]. apply negb_true_iff in H1.
+    rewrite H1, (IH H2). reflexivity.
+Qed.
+Lemma split_join46 ls :
+  ls <> [] -> Forall (fun l => no_dot l = true) ls -> split_byte (join ls [46]) 46 = ls.
+Proof.
+  induction ls as [|t ts IH]; intros Hne H; [congruence|].
+  inversion H as [|? ? Ht Hts]; subst.
+  destruct ts as [|t2 ts].
+  - cbn [join]. now apply split_no_dot.
+  - change (join (t :: t2 :: ts) [46]) with (t ++ 46 :: join (t2 :: ts) [46]).
+    rewrite split_app_dot by assumption. f_equal. apply IH; [discriminate | assumption].
+Qed.
+Lemma split_labels name :
+  Forall (fun l => no_dot l = true) (split_byte name 46) /\ split_byte name 46 <> [].
+Proof.
+  induction name as [|x s [IHf IHn]]; cbn [split_byte].
+  - split; [repeat constructor | discriminate].
+  - destruct (x =? 46) eqn:E.
+    + split; [constructor; [reflexivity | exact IHf] | discriminate].
+    + destruct (split_byte s 46) as [|w ws]; [congruence|].
+      inversion IHf as [|? ? Hw Hws]; subst.
+      split; [|discriminate]. constructor; [|exact Hws].
+      cbn [no_dot forallb]. rewrite E. exact Hw.
+Qed.
+Lemma join_split46 s : join (split_byte s 46) [46] = s.
+Proof.
+  induction s as [|x s IH]; cbn [split_byte]; [reflexivity|].
+  destruct (split_labels s) as [_ Hne].
+  destruct (x =? 46) eqn:E.
+  - apply N.eqb_eq in E. subst x.
+    destruct (split_byte s 46) as [|w ws]; [congruence|].
+    change (join ([] :: w :: ws) [46]) with (46 :: join (w :: ws) [46]). now rewrite IH.
+  - destruct (split_byte s 46) as [|w ws]; [congruence|].
+    destruct ws as [|w2 ws].
+    + cbn [join] in *. now rewrite IH.
+    + change (join ((x :: w) :: w2 :: ws) [46]) with (x :: (w ++ 46 :: join (w2 :: ws) [46])).
+      change (join (w :: w2 :: ws) [46]) with (w ++ 46 :: join (w2 :: ws) [46]) in IH.
+      now rewrite IH.
+Qed.
+
+(* [stars k] = k star labels, then the name's own labels *)
+Lemma stars_spec : forall k labels, (k <= length labels)%nat -> stars k labels = repeat star k ++ skipn k labels.
+Proof.
+  induction k as [|k IH]; intros labels Hk; [now destruct labels|].
+  destruct labels as [|l r]; [cbn in Hk; lia|].
+  cbn [stars repeat app skipn]. cbn [length] in Hk. rewrite IH by lia. reflexivity.
+Qed.
+(* the k-th candidate of the scan is exactly the (k+1)-star pattern covering the name ... *)
+Lemma candidate_covers name k :
+  (k < length (split_byte name 46))%nat -> covers (S k) (candidate (split_byte name 46) k) name.
+Proof.
+  intros Hk. unfold covers, covers_with, candidate. split; [lia|].
+  rewrite stars_spec by lia.
+  apply split_join46; [discriminate|].
+  apply Forall_app. split.
+  - apply Forall_forall. intros x Hx. apply repeat_spec in Hx. now subst.
+  - destruct (split_labels name) as [Hf _].
+    rewrite <- (firstn_skipn (S k) (split_byte name 46)) in Hf. now apply Forall_app in Hf.
+Qed.
+(* ... and every covering pattern is one of the candidates *)
+Lemma covers_candidate s pat name :
+  covers s pat name -> (s - 1 < length (split_byte name 46))%nat /\ pat = candidate (split_byte name 46) (s - 1).
+Proof.
+  intros [Hs Hp]. split; [lia|]. unfold candidate.
+  replace (S (s - 1)) with s by lia. rewrite stars_spec by lia. rewrite <- Hp.
+  symmetry. apply join_split46.
+Qed.
+
 (* ================= the candidate scan ================= *)
 Lemma first_hit_seq ix (f : nat -> str) : forall len s,
   match first_hit ix (map f (seq s len)) with
@@ -147,10 +253,82 @@ Proof.
     pose proof (first_hit_seq (build_index certs) (candidate labels) (length labels) 0) as H.
     destruct (first_hit (build_index certs) (map (candidate labels) (seq 0 (length labels)))) as [i|].
     + destruct H as (k & Hk & Hl & Hmin). rewrite lookup_build in Hl.
-      apply (sel_wild (folded certs) strict name k i); [exact E | fold labels; lia | | fold labels; now apply last_idx_some].
-      intros k' Hk'. fold labels. apply last_idx_none. rewrite <- lookup_build. apply Hmin. lia.
-    + apply sel_default; [exact E|]. intros k Hk. fold labels. apply last_idx_none.
-      rewrite <- lookup_build. apply H. fold labels in Hk. lia.
+      apply (sel_wild (folded certs) strict name (S k) (candidate labels k) i);
+        [exact E | apply candidate_covers; fold labels; lia | | now apply last_idx_some].
+      intros s' pat' Hs' Hc. pose proof Hc as [[Hs1 _] _].
+      apply covers_candidate in Hc as [_ ->]. fold labels.
+      apply last_idx_none. rewrite <- lookup_build. apply Hmin. lia.
+    + apply sel_default; [exact E|]. intros s pat Hc.
+      apply covers_candidate in Hc as [Hk ->]. fold labels in Hk |- *. apply last_idx_none.
+      rewrite <- lookup_build. apply H. lia.
+Qed.
+(* the hypotheses of [get_cert_spec] are met by the interesting cases *)
+Example get_cert_spec_nonvacuous :
+  let certs := [[bs "a.com"]; [bs "b.com"; bs "*.b.com"]; [bs "*.*.c.com"]] in
+  certs <> [] /\ (true = true \/ 2 <= length certs)%nat /\ (false = true \/ 2 <= length certs)%nat /\
+  store_pick certs (bs "X.Y.C.com..") true = PCert 2 /\
+  store_pick certs (bs "w.B.com") false = PCert 1 /\
+  store_pick certs (bs "zzz") false = PCert 0 /\
+  store_pick certs (bs "zzz") true = PNone /\
+  covers 2 (bs "*.*.c.com") (normalize (bs "X.Y.C.com..")).
+Proof.
+  cbv zeta. split; [discriminate|]. split; [now left|]. split; [right; cbn; lia|].
+  repeat (split; [vm_compute; reflexivity|]).
+  unfold covers, covers_with. vm_compute. split; [split; repeat constructor | reflexivity].
+Qed.
+
+(* ---- the property's demand as a boolean (used by Check/C11.v as the spec): a scan of
+   the folded set for the name, then for any covering pattern; no index, no "last", no
+   "fewest stars".  It is sound for [presents] ---- *)
+Definition hit_any (c : cert) (pats : list str) : bool := existsb (fun p => mem p c) pats.
+Definition presents_b (certs : certset) (sn : str) (strict : bool) (p : pick) : bool :=
+  let lc := folded certs in
+  let name := normalize sn in
+  let cands := candidates name in
+  if existsb (mem name) lc then
+    match p with
+    | PCert i => match nth_error lc i with Some c => mem name c | None => false end
+    | _ => false
+    end
+  else if existsb (fun c => hit_any c cands) lc then
+    match p with
+    | PCert i => match nth_error lc i with Some c => hit_any c cands | None => false end
+    | _ => false
+    end
+  else pick_eqb p (if strict then PNone else PCert 0).
+Lemma pick_eqb_eq a b : pick_eqb a b = true -> a = b.
+Proof.
+  destruct a, b; cbn [pick_eqb]; try discriminate; try reflexivity.
+  intros H. apply Nat.eqb_eq in H. now subst.
+Qed.
+Lemma existsb_false_none (lc : list cert) n : existsb (mem n) lc = false -> none_with lc n.
+Proof.
+  intros H i (c & Hc & Hin). apply nth_error_In in Hc.
+  assert (X : existsb (mem n) lc = true) by (apply existsb_exists; exists c; split; [exact Hc | now apply mem_In]).
+  congruence.
+Qed.
+Lemma presents_b_sound certs sn strict p :
+  presents_b certs sn strict p = true -> presents (folded certs) strict (normalize sn) p.
+Proof.
+  unfold presents_b. set (lc := folded certs). set (name := normalize sn).
+  destruct (existsb (mem name) lc) eqn:E1.
+  - destruct p as [i| |]; try discriminate. destruct (nth_error lc i) as [c|] eqn:N; [|discriminate].
+    intros M. left. exists i. split; [reflexivity|]. exists c. split; [exact N | now apply mem_In].
+  - apply existsb_false_none in E1.
+    destruct (existsb (fun c => hit_any c (candidates name)) lc) eqn:E2.
+    + destruct p as [i| |]; try discriminate. destruct (nth_error lc i) as [c|] eqn:N; [|discriminate].
+      intros M. right. left. split; [exact E1|].
+      unfold hit_any in M. apply existsb_exists in M as (pat & Hpat & Hm).
+      unfold candidates in Hpat. apply in_map_iff in Hpat as (k & <- & Hk). apply in_seq in Hk.
+      exists i, (S k), (candidate (split_byte name 46) k). split; [reflexivity|].
+      split; [apply candidate_covers; lia|]. exists c. split; [exact N | now apply mem_In].
+    + intros H. apply pick_eqb_eq in H. right. right. split; [exact E1|]. split; [|exact H].
+      intros s pat Hc i (c & Hn & Hin). apply covers_candidate in Hc as [Hk ->].
+      assert (X : existsb (fun c => hit_any c (candidates name)) lc = true).
+      { apply existsb_exists. exists c. split; [now apply nth_error_In in Hn|].
+        unfold hit_any. apply existsb_exists. exists (candidate (split_byte name 46) (s - 1)).
+        split; [|now apply mem_In]. unfold candidates. apply in_map. apply in_seq. lia. }
+      congruence.
 Qed.
 
 (* the answer is never outside the set *)
@@ -173,14 +351,20 @@ Qed.
 
 Lemma empty_store_err sn strict : store_pick [] sn strict = PErrNoCerts.
 Proof. reflexivity. Qed.
+Lemma store_pick_nonempty certs sn strict : certs <> [] -> store_pick certs sn strict <> PErrNoCerts.
+Proof.
+  unfold store_pick, get_certificate. destruct certs as [|c0 rest]; [contradiction|]. intros _.
+  destruct (negb strict && _); [discriminate|].
+  destruct (lookup_last _ _); [discriminate|]. destruct (first_hit _ _); [discriminate|].
+  destruct strict; discriminate.
+Qed.
 Lemma single_nonstrict c sn : store_pick [c] sn false = PCert 0.
 Proof. reflexivity. Qed.
-(* strict listeners never fall back: no certificate unless a name or wildcard matches *)
+(* strict listeners never fall back: no certificate unless a name or a covering wildcard matches *)
 Lemma strict_none certs sn :
   store_pick certs sn true = PNone ->
   none_with (folded certs) (normalize sn) /\
-  forall k, (k < length (split_byte (normalize sn) 46))%nat ->
-            none_with (folded certs) (candidate (split_byte (normalize sn) 46) k).
+  forall s pat, covers s pat (normalize sn) -> none_with (folded certs) pat.
 Proof.
   unfold store_pick, get_certificate. destruct certs as [|c0 rest]; [discriminate|].
   set (certs := c0 :: rest). cbn [negb andb]. rewrite lookup_build.
@@ -188,7 +372,8 @@ Proof.
   pose proof (first_hit_seq (build_index certs) (candidate (split_byte (normalize sn) 46))
                 (length (split_byte (normalize sn) 46)) 0) as H.
   unfold candidates. destruct (first_hit _ _); [discriminate|]. intros _.
-  split; [now apply last_idx_none|]. intros k Hk. apply last_idx_none. rewrite <- lookup_build. apply H. lia.
+  split; [now apply last_idx_none|]. intros s pat Hc. apply covers_candidate in Hc as [Hk ->].
+  apply last_idx_none. rewrite <- lookup_build. apply H. lia.
 Qed.
 
 (* request names are matched case-insensitively and regardless of trailing dots *)
@@ -223,7 +408,7 @@ Lemma upper_case_cert_name_found :
   store_pick [[bs "a.com"%string]; [bs "Foo.com"%string]] (bs "fOO.com."%string) false = PCert 1.
 Proof. vm_compute. reflexivity. Qed.
 
-(* ================= handshakes interleaved with set replacement ================= *)
+(* ================= handshakes interleaved with set replacement, coarse ================= *)
 (* spec: the set current at the handshake's load, computed by a plain scan of the prefix *)
 Fixpoint current (cur : list cert) (prefix : list action) : list cert :=
   match prefix with
@@ -266,25 +451,335 @@ Proof.
   apply map_ext. intros [[k n] s]. now rewrite Nat.sub_0_r.
 Qed.
 
+(* ================= the same, over the steps that are atomic in the code ================= *)
+(* abstract machine: only certificate sets, no index.  A handshake is answered from the
+   one set its load saw, by [store_pick] - the complete index of exactly that set - whatever
+   is prepared or stored between its load and its pick *)
+Definition astate := (certset * option certset * list (nat * certset))%type.
+Definition astate0 : astate := ([], None, []).
+Definition abs_step (st : astate) (a : faction) : astate * list pick :=
+  let '(cur, pend, snaps) := st in
+  match a with
+  | FBuild c => ((cur, Some c, snaps), [])
+  | FStore => match pend with Some c => ((c, None, snaps), []) | None => (st, []) end
+  | FLoad t => ((cur, pend, (t, cur) :: snaps), [])
+  | FPick t n s => match snap_get t snaps with
+                   | Some c => (st, [store_pick c n s])
+                   | None => (st, [])
+                   end
+  end.
+Fixpoint run_abs (st : astate) (sched : list faction) : list pick :=
+  match sched with
+  | [] => []
+  | a :: r => let '(st', out) := abs_step st a in out ++ run_abs st' r
+  end.
+
+(* a stored value answers as the complete index of its own certificates would *)
+Definition answers_as (v : certstore_v) (c : certset) : Prop := forall n s, pick_on v n s = store_pick c n s.
+Definition opt_rel {A B} (R : A -> B -> Prop) (a : option A) (b : option B) : Prop :=
+  match a, b with Some x, Some y => R x y | None, None => True | _, _ => False end.
+Definition snaps_rel (a : list (nat * certstore_v)) (b : list (nat * certset)) : Prop :=
+  Forall2 (fun x y => fst x = fst y /\ answers_as (snd x) (snd y)) a b.
+Definition frel (st : fstate) (ast : astate) : Prop :=
+  let '(store, pend, snaps) := st in let '(cur, apend, asnaps) := ast in
+  answers_as store cur /\ opt_rel answers_as pend apend /\ snaps_rel snaps asnaps.
+
+Lemma snap_get_rel t a b : snaps_rel a b -> opt_rel answers_as (snap_get t a) (snap_get t b).
+Proof.
+  induction 1 as [|[u v] [u' c] a b [Hu Hv] _ IH]; [exact I|].
+  cbn [snap_get]. cbn [fst snd] in Hu, Hv. subst u'. destruct (Nat.eqb u t); [exact Hv | exact IH].
+Qed.
+
+Lemma fine_refines : forall sched st ast,
+  frel st ast -> run_fine mk_built st sched = run_abs ast sched.
+Proof.
+  induction sched as [|a r IH]; intros [[store pend] snaps] [[cur apend] asnaps] (Hs & Hp & Hn); [reflexivity|].
+  cbn [run_fine run_abs]. destruct a as [c| |t|t n s]; cbn [fine_step abs_step].
+  - cbn [app]. apply IH. split; [exact Hs|]. split; [|exact Hn]. intros n s. reflexivity.
+  - destruct pend as [v|], apend as [c|]; try contradiction; cbn [app]; apply IH.
+    + split; [exact Hp|]. split; [exact I | exact Hn].
+    + split; [exact Hs|]. split; [exact I | exact Hn].
+  - cbn [app]. apply IH. split; [exact Hs|]. split; [exact Hp|].
+    constructor; [split; [reflexivity | exact Hs] | exact Hn].
+  - pose proof (snap_get_rel t snaps asnaps Hn) as Hg.
+    destruct (snap_get t snaps) as [v|], (snap_get t asnaps) as [c|]; try contradiction.
+    + cbn [app]. rewrite (Hg n s). f_equal. apply IH. split; [exact Hs|]. split; [exact Hp | exact Hn].
+    + cbn [app]. apply IH. split; [exact Hs|]. split; [exact Hp | exact Hn].
+Qed.
+Lemma frel0 : frel fstate0 astate0.
+Proof. split; [intros n s; reflexivity|]. split; [exact I | constructor]. Qed.
+Lemma run_fine_single_set sched : run_fine mk_built fstate0 sched = run_abs astate0 sched.
+Proof. apply fine_refines, frel0. Qed.
+
+(* every answer of the abstract machine comes from one set: the initial one or one that was
+   stored; never from a set that was only prepared, never from two *)
+Fixpoint stored_sets (pend : option certset) (sched : list faction) : list certset :=
+  match sched with
+  | [] => []
+  | FBuild c :: r => stored_sets (Some c) r
+  | FStore :: r => match pend with Some c => c :: stored_sets None r | None => stored_sets None r end
+  | _ :: r => stored_sets pend r
+  end.
+Lemma run_abs_from_stored : forall sched cur pend snaps p,
+  In p (run_abs (cur, pend, snaps) sched) ->
+  exists c n s, p = store_pick c n s /\
+    (c = cur \/ In c (map snd snaps) \/ In c (stored_sets pend sched)).
+Proof.
+  induction sched as [|a r IH]; intros cur pend snaps p; [contradiction|].
+  cbn [run_abs]. destruct a as [c| |t|t n s]; cbn [abs_step stored_sets].
+  - cbn [app]. intros H. apply IH in H as (c' & n & s & -> & Hc). exists c', n, s. split; [reflexivity|].
+    destruct Hc as [Hc|[Hc|Hc]]; auto.
+  - destruct pend as [c|]; cbn [app]; intros H; apply IH in H as (c' & n & s & -> & Hc);
+      exists c', n, s; (split; [reflexivity|]).
+    + destruct Hc as [Hc|[Hc|Hc]]; [right; right; left; now symmetry | auto | right; right; now right].
+    + destruct Hc as [Hc|[Hc|Hc]]; auto.
+  - cbn [app]. intros H. apply IH in H as (c' & n & s & -> & Hc). exists c', n, s. split; [reflexivity|].
+    cbn [map snd In] in Hc. destruct Hc as [Hc|[[Hc|Hc]|Hc]]; auto.
+  - destruct (snap_get t snaps) as [c|] eqn:G; cbn [app].
+    + intros [H|H].
+      * exists c, n, s. split; [now symmetry|]. right. left.
+        clear -G. induction snaps as [|[u v] snaps IHs]; [discriminate|].
+        cbn [snap_get] in G. cbn [map snd In]. destruct (Nat.eqb u t); [inversion G; now left | right; now apply IHs].
+      * apply IH in H as (c' & n' & s' & -> & Hc). now exists c', n', s'.
+    + intros H. apply IH in H as (c' & n' & s' & -> & Hc). now exists c', n', s'.
+Qed.
+
+(* the wrong order - store the value, then build its index - leaves a nil index in the
+   store: the handshake below is not answered as its set demands *)
+Lemma store_before_build_refuted :
+  exists sched, run_fine mk_store_first fstate0 sched <> run_abs astate0 sched.
+Proof.
+  exists [FBuild [[bs "a.com"%string]; [bs "b.com"%string]]; FStore; FLoad 0; FPick 0 (bs "b.com"%string) false].
+  vm_compute. discriminate.
+Qed.
+Example run_fine_example :
+  run_fine mk_built fstate0
+    [FBuild [[bs "a.com"%string]; [bs "b.com"%string]]; FStore; FLoad 0;
+     FBuild [[bs "b.com"%string]; [bs "a.com"%string]]; FLoad 1; FStore; FLoad 2;
+     FPick 0 (bs "b.com"%string) false; FPick 1 (bs "b.com"%string) true; FPick 2 (bs "b.com"%string) true]
+  = [PCert 1; PCert 1; PCert 0].
+Proof. vm_compute. reflexivity. Qed.
+
+(* ================= loadCertificates ================= *)
+Lemma str_cmp_le_trans : forall a b c, str_cmp a b <> Gt -> str_cmp b c <> Gt -> str_cmp a c <> Gt.
+Proof.
+  induction a as [|x a IH]; intros [|y b] [|z c]; cbn [str_cmp]; intros H1 H2; try congruence.
+  destruct (N.compare_spec x y) as [E1|E1|E1]; destruct (N.compare_spec y z) as [E2|E2|E2]; try congruence.
+  - subst. rewrite N.compare_refl. eauto.
+  - subst. apply N.compare_lt_iff in E2. rewrite E2. discriminate.
+  - subst. apply N.compare_lt_iff in E1. rewrite E1. discriminate.
+  - assert (H : x < z) by lia. apply N.compare_lt_iff in H. rewrite H. discriminate.
+Qed.
+Definition file_le (a b : str * cert) : Prop := str_cmp (fst a) (fst b) <> Gt.
+Lemma insert_file_in e l x : In x (insert_file e l) <-> x = e \/ In x l.
+Proof.
+  induction l as [|h t IH]; cbn [insert_file In]; [intuition|].
+  destruct (str_ltb (fst h) (fst e)); cbn [In]; rewrite ?IH; intuition.
+Qed.
+Lemma sort_files_in l x : In x (sort_files l) <-> In x l.
+Proof.
+  induction l as [|h t IH]; cbn [sort_files fold_right In]; [reflexivity|].
+  fold (sort_files t). rewrite insert_file_in, IH. intuition.
+Qed.
+Lemma insert_file_sorted e l : StronglySorted file_le l -> StronglySorted file_le (insert_file e l).
+Proof.
+  induction 1 as [|h t Hs IH Hh]; cbn [insert_file]; [repeat constructor|].
+  unfold str_ltb. destruct (str_cmp (fst h) (fst e)) eqn:E.
+  - constructor; [now constructor|]. constructor.
+    + unfold file_le. rewrite str_cmp_antisym, E. discriminate.
+    + apply Forall_forall. intros x Hx. rewrite Forall_forall in Hh.
+      apply (str_cmp_le_trans _ (fst h)); [rewrite str_cmp_antisym, E; discriminate | now apply Hh].
+  - constructor; [exact IH|]. apply Forall_forall. intros x Hx. apply insert_file_in in Hx as [->|Hx].
+    + unfold file_le. rewrite E. discriminate.
+    + rewrite Forall_forall in Hh. now apply Hh.
+  - constructor; [now constructor|]. constructor.
+    + unfold file_le. rewrite str_cmp_antisym, E. discriminate.
+    + apply Forall_forall. intros x Hx. rewrite Forall_forall in Hh.
+      apply (str_cmp_le_trans _ (fst h)); [rewrite str_cmp_antisym, E; discriminate | now apply Hh].
+Qed.
+Lemma sort_files_sorted l : StronglySorted file_le (sort_files l).
+Proof.
+  induction l as [|h t IH]; cbn [sort_files fold_right]; [constructor|]. now apply insert_file_sorted.
+Qed.
+
+(* the certificates come out in ascending order of their certificate file names ... *)
+Lemma load_files_sorted m : StronglySorted file_le (fst (load_files m)).
+Proof. unfold load_files. destruct (load_loop _ _ _ _). apply sort_files_sorted. Qed.
+(* ... so the first certificate - the default - is the one whose file name is least *)
+Lemma load_first_least m f c rest bad :
+  load_files m = ((f, c) :: rest, bad) -> forall f' c', In (f', c') rest -> str_cmp f f' <> Gt.
+Proof.
+  intros H f' c' Hin. pose proof (load_files_sorted m) as S. rewrite H in S. cbn [fst] in S.
+  inversion S as [|? ? _ Hall]; subst. rewrite Forall_forall in Hall. exact (Hall _ Hin).
+Qed.
+
+(* which pairs are loaded, independently of the loop: *)
+Definition usable_pair (m : blocks) (names : list str) (cf : str) (c : cert) : Prop :=
+  exists name kf, In name names /\ classify name = Some (cf, kf) /\ key_pair m cf kf = Some c.
+Lemma assoc_mem_in {A} k (x : list (str * A)) : assoc_mem k x = true -> exists v, In (k, v) x.
+Proof.
+  induction x as [|[k' v] x IH]; cbn [assoc_mem]; [discriminate|].
+  intros H. apply orb_true_iff in H as [H|H].
+  - apply beq_eq in H. subst. exists v. now left.
+  - destruct (IH H) as [w Hw]. exists w. now right.
+Qed.
+Lemma assoc_mem_cons {A} k e (x : list (str * A)) : assoc_mem k x = true -> assoc_mem k (e :: x) = true.
+Proof. destruct e. cbn [assoc_mem]. intros ->. apply orb_true_r. Qed.
+Lemma load_loop_spec all : forall names x bad x' bad',
+  load_loop all names x bad = (x', bad') ->
+  (* sound *)
+  (forall cf c, In (cf, c) x' -> In (cf, c) x \/ usable_pair all names cf c) /\
+  (* nothing is dropped *)
+  (forall cf, assoc_mem cf x = true -> assoc_mem cf x' = true) /\
+  (* without an error every classified name has its pair in the result *)
+  (bad' = false -> bad = false /\
+     forall name cf kf, In name names -> classify name = Some (cf, kf) -> assoc_mem cf x' = true) /\
+  (* an error is a pair that cannot be made *)
+  (bad' = true -> bad = true \/
+     exists name cf kf, In name names /\ classify name = Some (cf, kf) /\ key_pair all cf kf = None).
+Proof.
+  induction names as [|name r IH]; intros x bad x' bad' H; cbn [load_loop] in H.
+  - inversion H; subst. split; [|split; [|split]].
+    + intros cf c Hin. now left.
+    + auto.
+    + intros ->. split; [reflexivity|]. intros name cf kf [].
+    + intros ->. now left.
+  - assert (Lift : forall x0 : list (str * cert),
+      (forall cf c, In (cf, c) x' -> In (cf, c) x0 \/ usable_pair all r cf c) ->
+      forall cf c, In (cf, c) x' -> In (cf, c) x0 \/ usable_pair all (name :: r) cf c).
+    { intros x0 S1 cf c Hin. destruct (S1 cf c Hin) as [Hx|(n & kf & Hn & Hc & Hk)]; [now left|].
+      right. exists n, kf. split; [now right|]. split; assumption. }
+    assert (Lift4 : forall b0 : bool,
+      (bad' = true -> b0 = true \/ exists n cf kf, In n r /\ classify n = Some (cf, kf) /\ key_pair all cf kf = None) ->
+      bad' = true -> b0 = true \/ exists n cf kf, In n (name :: r) /\ classify n = Some (cf, kf) /\ key_pair all cf kf = None).
+    { intros b0 S4 Hb. destruct (S4 Hb) as [?|(n & cf & kf & Hn & Hc & Hk)]; [now left|].
+      right. exists n, cf, kf. split; [now right|]. split; assumption. }
+    destruct (classify name) as [[cf0 kf0]|] eqn:C;
+      [destruct (assoc_mem cf0 x) eqn:M; [|destruct (key_pair all cf0 kf0) as [c0|] eqn:K]|];
+      destruct (IH _ _ _ _ H) as (S1 & S2 & S3 & S4); (split; [|split; [|split]]).
+    + now apply Lift.
+    + exact S2.
+    + intros Hb. destruct (S3 Hb) as [Hb0 Hall]. split; [exact Hb0|].
+      intros name' cf kf [<-|Hn] Hc; [|now apply (Hall name' cf kf)].
+      rewrite C in Hc. inversion Hc; subst. now apply S2.
+    + now apply Lift4.
+    + intros cf c Hin. destruct (S1 cf c Hin) as [[E|Hx]|(n & kf & Hn & Hc & Hk)].
+      * inversion E; subst. right. exists name, kf0. split; [now left|]. split; assumption.
+      * now left.
+      * right. exists n, kf. split; [now right|]. split; assumption.
+    + intros cf Hm. apply S2. now apply assoc_mem_cons.
+    + intros Hb. destruct (S3 Hb) as [Hb0 Hall]. split; [exact Hb0|].
+      intros name' cf kf [<-|Hn] Hc; [|now apply (Hall name' cf kf)].
+      rewrite C in Hc. inversion Hc; subst. apply S2. cbn [assoc_mem]. now rewrite beq_refl.
+    + now apply Lift4.
+    + now apply Lift.
+    + exact S2.
+    + intros Hb. destruct (S3 Hb) as [Hb0 _]. discriminate.
+    + intros _. right. exists name, cf0, kf0. split; [now left|]. split; assumption.
+    + now apply Lift.
+    + exact S2.
+    + intros Hb. destruct (S3 Hb) as [Hb0 Hall]. split; [exact Hb0|].
+      intros name' cf kf [<-|Hn] Hc; [congruence | now apply (Hall name' cf kf)].
+    + now apply Lift4.
+Qed.
+(* every certificate of the result is a cert/key pair of the source that X509KeyPair accepts *)
+Lemma load_files_sound m cf c : In (cf, c) (fst (load_files m)) -> usable_pair m (map fst m) cf c.
+Proof.
+  unfold load_files. destruct (load_loop m (map fst m) [] false) as [x bad] eqn:E. cbn [fst].
+  intros H. apply (proj1 (sort_files_in _ _)) in H. destruct (load_loop_spec _ _ _ _ _ _ E) as (S1 & _).
+  destruct (S1 cf c H) as [[]|?]; assumption.
+Qed.
+(* without an error, every cert, key or combined file of the source has its pair in the result *)
+Lemma load_files_complete m name cf kf :
+  snd (load_files m) = false -> In name (map fst m) -> classify name = Some (cf, kf) ->
+  exists c, In (cf, c) (fst (load_files m)).
+Proof.
+  unfold load_files. destruct (load_loop m (map fst m) [] false) as [x bad] eqn:E. cbn [fst snd].
+  intros Hb Hn Hc. destruct (load_loop_spec _ _ _ _ _ _ E) as (_ & _ & S3 & _).
+  destruct (S3 Hb) as [_ S]. apply (S name cf kf Hn) in Hc. apply assoc_mem_in in Hc as [c Hin].
+  exists c. now apply sort_files_in.
+Qed.
+(* an error means some pair of the source is incomplete or unusable *)
+Lemma load_files_error m :
+  snd (load_files m) = true ->
+  exists name cf kf, In name (map fst m) /\ classify name = Some (cf, kf) /\ key_pair m cf kf = None.
+Proof.
+  unfold load_files. destruct (load_loop m (map fst m) [] false) as [x bad] eqn:E. cbn [snd].
+  intros Hb. destruct (load_loop_spec _ _ _ _ _ _ E) as (_ & _ & _ & S4).
+  destruct (S4 Hb) as [?|?]; [discriminate | assumption].
+Qed.
+(* a source without certificate files loads as nothing, without an error *)
+Lemma load_no_pem_files m :
+  (forall name, In name (map fst m) -> classify name = None) -> load_certificates m = ([], false).
+Proof.
+  intros H. unfold load_certificates, load_files.
+  assert (G : forall names x bad, (forall n, In n names -> classify n = None) -> load_loop m names x bad = (x, bad)).
+  { induction names as [|n r IH]; intros x bad Hn; [reflexivity|]. cbn [load_loop].
+    rewrite (Hn n (or_introl eq_refl)). apply IH. intros n' Hn'. apply Hn. now right. }
+  rewrite (G _ _ _ H). reflexivity.
+Qed.
+
+Definition pf (id : N) (c : option (N * cert)) (k : option N) : pfile := {| f_id := id; f_cert := c; f_key := k |}.
+Example load_example :
+  load_certificates
+    [(bs "b-key.pem", pf 1 None (Some 7)); (bs "z.pem", pf 2 (Some (9, [bs "z.com"])) (Some 9));
+     (bs "b-cert.pem", pf 3 (Some (7, [bs "b.com"])) None); (bs "README", pf 4 None None);
+     (bs "a-cert.pem", pf 5 (Some (7, [bs "a.com"])) None); (bs "a-key.pem", pf 1 None (Some 7))]
+  = ([[bs "a.com"]; [bs "b.com"]; [bs "z.com"]], false)
+  /\ load_certificates [(bs "a-key.pem", pf 1 None (Some 7))] = ([], true)
+  /\ load_certificates [(bs "README", pf 4 None None)] = ([], false)
+  /\ load_certificates [] = ([], false).
+Proof. vm_compute. repeat split. Qed.
+
 (* ================= the reload loop ================= *)
-(* every publication is of a good load whose blocks differ from the last published ones;
-   a bad load or an error publishes nothing and leaves the state alone *)
+Lemma cert_eqb_eq a b : cert_eqb a b = true <-> a = b.
+Proof. apply list_eqb_eq. apply beq_eq. Qed.
+Lemma pfile_eqb_eq a b : pfile_eqb a b = true <-> a = b.
+Proof.
+  unfold pfile_eqb. destruct a as [ia ca ka], b as [ib cb kb]. cbn [f_id f_cert f_key].
+  rewrite !andb_true_iff, N.eqb_eq.
+  rewrite (opt_eqb_eq _ N.eqb_eq).
+  rewrite (opt_eqb_eq (fun x y : N * cert => (fst x =? fst y) && cert_eqb (snd x) (snd y))).
+  - split; [intros [[-> ->] ->]; reflexivity | intros H; inversion H; auto].
+  - intros [x1 x2] [y1 y2]. cbn [fst snd]. rewrite andb_true_iff, N.eqb_eq, cert_eqb_eq.
+    split; [intros [-> ->]; reflexivity | intros H; inversion H; auto].
+Qed.
+Lemma blocks_eqb_eq a b : blocks_eqb a b = true <-> a = b.
+Proof.
+  apply list_eqb_eq. intros [n1 f1] [n2 f2]. cbn [fst snd].
+  rewrite andb_true_iff, beq_eq, pfile_eqb_eq. split; [intros [-> ->]; reflexivity | intros H; inversion H; auto].
+Qed.
+Lemma same_blocks_eq a b : same_blocks a b = true <-> a = b.
+Proof. apply opt_eqb_eq. apply blocks_eqb_eq. Qed.
+
+(* a load the loop can use: no error, a certificate build without an error, at least one
+   certificate.  Nothing here mentions [last], the comparison or the sleeps *)
+Definition usable (l : load) : option certset :=
+  match l with
+  | LoadErr => None
+  | Loaded next => match built next with
+                   | (c :: r, false) => Some (c :: r)
+                   | _ => None
+                   end
+  end.
+
+(* every publication is of a usable load whose blocks differ from the last published ones;
+   anything else publishes nothing, leaves the loop's memory alone and sleeps *)
 Lemma watch_step_publish once last l ev last' stop :
   watch_step once last l = (ev, last', stop) ->
   (forall set, In (EPublish set) ev ->
-     exists id, l = Blocks id (Some set) /\ last <> Some id /\ last' = Some id) /\
-  ((forall set, ~ In (EPublish set) ev) -> last' = last /\ stop = false).
+     exists next, l = Loaded next /\ same_blocks next last = false /\ usable l = Some set /\ last' = next) /\
+  ((forall set, ~ In (EPublish set) ev) -> last' = last /\ stop = false /\ ev = [ESleep]).
 Proof.
-  unfold watch_step. destruct l as [|id good].
+  unfold watch_step. destruct l as [|next].
   - intros H. inversion H; subst. split; [intros set [X|[]]; discriminate | auto].
-  - destruct (match last with Some l0 => l0 =? id | None => false end) eqn:E.
+  - destruct (same_blocks next last) eqn:E.
     + intros H. inversion H; subst. split; [intros set [X|[]]; discriminate | auto].
-    + destruct good as [set0|]; intros H; inversion H; subst.
-      * split.
-        -- intros set [X|[]]. inversion X; subst. exists id. repeat split.
-           intros Hl. subst last. now rewrite N.eqb_refl in E.
-        -- intros Hno. exfalso. apply (Hno set0). now left.
-      * split; [intros set [X|[]]; discriminate | auto].
+    + unfold usable. destruct (built next) as [[|c r] [|]]; intros H; inversion H; subst;
+        try (split; [intros set [X|[]]; discriminate | auto]).
+      split.
+      * intros set [X|[]]. inversion X; subst. exists last'. auto.
+      * intros Hno. exfalso. apply (Hno (c :: r)). now left.
 Qed.
 
 (* no spinning: in the trace of any script, two loads are always separated by a sleep
@@ -295,50 +790,220 @@ Fixpoint no_adjacent_loads (tr : list event) : bool :=
   | _ :: r => no_adjacent_loads r
   | [] => true
   end.
+Lemma watch_step_one_event once last l ev last' stop :
+  watch_step once last l = (ev, last', stop) -> exists e, ev = [e] /\ e <> ELoad.
+Proof.
+  unfold watch_step. destruct l as [|next].
+  - intros H. inversion H; subst. exists ESleep. split; [reflexivity | discriminate].
+  - destruct (same_blocks next last).
+    + intros H. inversion H; subst. exists ESleep. split; [reflexivity | discriminate].
+    + destruct (built next) as [[|c r] [|]]; intros H; inversion H; subst;
+        try (exists ESleep; split; [reflexivity | discriminate]).
+      exists (EPublish (c :: r)). split; [reflexivity | discriminate].
+Qed.
 Lemma watch_no_spin once : forall script last,
   no_adjacent_loads (watch_run watch_step once last script) = true.
 Proof.
+  unfold watch_run.
   induction script as [|l r IH]; intros last; [reflexivity|].
-  cbn [watch_run]. destruct (watch_step once last l) as [[ev last'] stop] eqn:E.
-  unfold watch_step in E. destruct l as [|id good].
-  - inversion E; subst. cbn [app no_adjacent_loads]. apply IH.
-  - destruct (match last with Some l0 => l0 =? id | None => false end).
-    + inversion E; subst. cbn [app no_adjacent_loads]. apply IH.
-    + destruct good; inversion E; subst; cbn [app no_adjacent_loads]; [|apply IH].
-      destruct stop; [reflexivity | apply IH].
+  cbn [watch_iters]. destruct (watch_step once last l) as [[ev last'] stop] eqn:E.
+  apply watch_step_one_event in E as (e & -> & He).
+  cbn [flat_map app].
+  destruct e; [congruence | |]; cbn [no_adjacent_loads];
+    (destruct stop; [reflexivity | apply IH]).
 Qed.
 
-(* the loop as it was: a bad load is followed by the next load with nothing in between *)
+Definition good_a : blocks :=
+  [(bs "a-cert.pem", pf 1 (Some (7, [bs "a.example"])) None); (bs "a-key.pem", pf 2 None (Some 7))].
+Definition orphan_key : blocks := [(bs "zz-key.pem", pf 2 None (Some 7))].
+
+(* the loop as it was before 2594210: a bad load is followed by the next load with nothing
+   in between *)
 Lemma watch_spinning_refuted :
   exists script, no_adjacent_loads (watch_run watch_step_spinning false None script) = false.
-Proof. exists [Blocks 1 None; Blocks 1 None]. reflexivity. Qed.
+Proof. exists [Loaded (Some orphan_key); Loaded (Some orphan_key)]. vm_compute. reflexivity. Qed.
 
-(* the sequence of publications = the good loads that differ from the last published, in order *)
-Fixpoint published (last : option N) (script : list load) : list N :=
+(* ---- what is published ---- *)
+Definition pubs (tr : list event) : list certset :=
+  flat_map (fun e => match e with EPublish s => [s] | _ => [] end) tr.
+
+(* ================= watch loop and store together ================= *)
+(* spec: the certificates of the last usable load of the history ([cur] if there is none).
+   A plain fold over the history: no [last], no comparison of blocks, no sleeps *)
+Fixpoint last_good (cur : certset) (script : list load) : certset :=
+  match script with
+  | [] => cur
+  | l :: r => last_good (match usable l with Some s => s | None => cur end) r
+  end.
+(* the loop's memory and the store agree: what the loop remembers as published is what the
+   store holds *)
+Definition linked (last : option blocks) (cur : certset) : Prop :=
+  match last with Some m => usable (Loaded (Some m)) = Some cur | None => True end.
+
+Lemma watch_step_store last cur l ev last' stop :
+  linked last cur -> watch_step false last l = (ev, last', stop) ->
+  stop = false /\ linked last' (match usable l with Some s => s | None => cur end) /\
+  forall rest, run_store cur (store_actions ev ++ rest) =
+               run_store (match usable l with Some s => s | None => cur end) rest.
+Proof.
+  intros Hl. unfold watch_step. destruct l as [|next].
+  - intros H. inversion H; subst. cbn [usable]. auto.
+  - destruct (same_blocks next last) eqn:E.
+    + apply same_blocks_eq in E. subst next. intros H. inversion H; subst.
+      destruct last' as [m|].
+      * cbn [linked] in Hl. rewrite Hl. auto.
+      * assert (U : usable (Loaded None) = None) by (vm_compute; reflexivity). rewrite U. auto.
+    + unfold usable. destruct (built next) as [[|c r] [|]] eqn:B; intros H; inversion H; subst; auto.
+      split; [reflexivity|]. split; [|reflexivity].
+      destruct last' as [m|]; [|exact I]. cbn [linked]. unfold usable. now rewrite B.
+Qed.
+
+(* after every prefix of every load history, a handshake is answered from the certificates
+   of the last usable load of that prefix (periodic sources) *)
+Lemma e2e_periodic : forall script last cur n s,
+  linked last cur ->
+  run_store cur (e2e_actions watch_step false last script n s) =
+  map (fun k => store_pick (last_good cur (firstn (S k) script)) n s) (seq 0 (length script)).
+Proof.
+  unfold e2e_actions.
+  induction script as [|l r IH]; intros last cur n s Hl; [reflexivity|].
+  cbn [watch_iters]. destruct (watch_step false last l) as [[ev last'] stop] eqn:E.
+  destruct (watch_step_store _ _ _ _ _ _ Hl E) as (-> & Hl' & Hrun).
+  cbn [flat_map]. rewrite <- app_assoc, Hrun. cbn [app run_store].
+  cbn [length seq map firstn last_good]. f_equal.
+  set (cur' := match usable l with Some s0 => s0 | None => cur end) in *.
+  etransitivity; [exact (IH last' cur' n s Hl')|].
+  rewrite <- seq_shift, map_map. reflexivity.
+Qed.
+
+(* one-shot sources (refresh <= 0): the loop is the periodic loop cut after the first usable load *)
+Fixpoint upto_first_good (script : list load) : list load :=
   match script with
   | [] => []
-  | Blocks id (Some set) :: r =>
-      if match last with Some l0 => l0 =? id | None => false end then published last r
-      else set :: published (Some id) r
-  | _ :: r => published last r
+  | l :: r => match usable l with Some _ => [l] | None => l :: upto_first_good r end
   end.
-Definition pubs (tr : list event) : list N :=
-  flat_map (fun e => match e with EPublish s => [s] | _ => [] end) tr.
+Lemma once_truncates : forall script,
+  watch_iters watch_step true None script = watch_iters watch_step false None (upto_first_good script).
+Proof.
+  induction script as [|l r IH]; [reflexivity|].
+  cbn [upto_first_good].
+  destruct l as [|next].
+  - cbn [usable watch_iters watch_step]. now rewrite IH.
+  - destruct next as [m|].
+    + assert (S : same_blocks (Some m) None = false) by reflexivity.
+      unfold usable. cbn [watch_iters]. unfold watch_step at 1. rewrite S.
+      destruct (built (Some m)) as [[|c r'] [|]] eqn:B.
+      * cbn [watch_iters]. unfold watch_step at 2. rewrite S, B. now rewrite IH.
+      * cbn [watch_iters]. unfold watch_step at 2. rewrite S, B. now rewrite IH.
+      * cbn [watch_iters]. unfold watch_step at 2. rewrite S, B. now rewrite IH.
+      * cbn [watch_iters]. unfold watch_step. rewrite S, B. reflexivity.
+    + assert (U : usable (Loaded None) = None) by (vm_compute; reflexivity). rewrite U.
+      cbn [watch_iters]. assert (W : forall o, watch_step o None (Loaded None) = ([ESleep], None, false)) by (intros o; reflexivity).
+      rewrite !W. now rewrite IH.
+Qed.
+Lemma watch_run_once script :
+  watch_run watch_step true None script = watch_run watch_step false None (upto_first_good script).
+Proof. unfold watch_run. now rewrite once_truncates. Qed.
+Lemma e2e_once script cur n s :
+  run_store cur (e2e_actions watch_step true None script n s) =
+  map (fun k => store_pick (last_good cur (firstn (S k) (upto_first_good script))) n s)
+      (seq 0 (length (upto_first_good script))).
+Proof. unfold e2e_actions. rewrite once_truncates. now apply (e2e_periodic _ None cur n s). Qed.
+
+(* what is published = the usable loads that differ from the last published blocks, in order *)
+Fixpoint published (last : option blocks) (script : list load) : list certset :=
+  match script with
+  | [] => []
+  | l :: r =>
+      match l, usable l with
+      | Loaded next, Some set => if same_blocks next last then published last r else set :: published next r
+      | _, _ => published last r
+      end
+  end.
 Lemma watch_publishes : forall script last,
   pubs (watch_run watch_step false last script) = published last script.
 Proof.
+  unfold watch_run.
   induction script as [|l r IH]; intros last; [reflexivity|].
-  destruct l as [|id [set|]]; cbn [watch_run published watch_step].
-  - cbn [pubs flat_map app]. apply IH.
-  - destruct (match last with Some l0 => l0 =? id | None => false end);
-      cbn [pubs flat_map app]; [apply IH | f_equal; apply IH].
-  - destruct (match last with Some l0 => l0 =? id | None => false end);
-      cbn [pubs flat_map app]; apply IH.
+  cbn [watch_iters published]. destruct l as [|next].
+  - cbn [watch_step flat_map app pubs usable]. apply IH.
+  - unfold watch_step, usable. destruct (same_blocks next last).
+    + destruct (built next) as [[|c r'] [|]]; cbn [flat_map app pubs]; apply IH.
+    + destruct (built next) as [[|c r'] [|]]; cbn [flat_map app pubs]; try apply IH.
+      f_equal. apply IH.
 Qed.
 
-Example spec_example :
-  store_pick [[bs "a.com"]; [bs "b.com"; bs "*.b.com"]; [bs "*.*.c.com"]] (bs "X.Y.C.com..") true = PCert 2
-  /\ store_pick [[bs "a.com"]; [bs "b.com"; bs "*.b.com"]] (bs "w.B.com") false = PCert 1
-  /\ store_pick [[bs "a.com"]; [bs "b.com"; bs "*.b.com"]] (bs "zzz") false = PCert 0
-  /\ store_pick [[bs "a.com"]; [bs "b.com"; bs "*.b.com"]] (bs "zzz") true = PNone.
+(* the working set is never removed: an unusable load changes nothing, and once a usable
+   load has happened no handshake is left without certificates *)
+Lemma last_good_app cur a b : last_good cur (a ++ b) = last_good (last_good cur a) b.
+Proof. revert cur; induction a as [|l a IH]; intros cur; [reflexivity|]. cbn [app last_good]. apply IH. Qed.
+Lemma unusable_keeps_set cur script l :
+  usable l = None -> last_good cur (script ++ [l]) = last_good cur script.
+Proof. intros H. rewrite last_good_app. cbn [last_good]. now rewrite H. Qed.
+Lemma usable_nonempty l set : usable l = Some set -> set <> [].
+Proof.
+  destruct l as [|next]; [discriminate|]. unfold usable.
+  destruct (built next) as [[|c r] [|]]; try discriminate. intros H. inversion H. discriminate.
+Qed.
+Lemma last_good_nonempty : forall script cur,
+  (cur <> [] \/ exists l, In l script /\ usable l <> None) -> last_good cur script <> [].
+Proof.
+  induction script as [|l r IH]; intros cur H; cbn [last_good].
+  - destruct H as [H|(l & [] & _)]. exact H.
+  - apply IH. destruct (usable l) as [set|] eqn:U.
+    + left. now apply usable_nonempty in U.
+    + destruct H as [H|(l' & [<-|Hin] & Hu)]; [now left | congruence | right; now exists l'].
+Qed.
+Lemma nth_error_firstn_in {A} : forall (l : list A) j k x,
+  nth_error l j = Some x -> (j < k)%nat -> In x (firstn k l).
+Proof.
+  induction l as [|a l IH]; intros [|j] [|k] x H Hk; cbn [nth_error firstn In] in *; try discriminate; try lia.
+  - inversion H. now left.
+  - right. apply (IH j); [exact H | lia].
+Qed.
+Lemma working_set_never_removed script cur n s k :
+  (exists j, (j <= k)%nat /\ exists l, nth_error script j = Some l /\ usable l <> None) ->
+  (k < length script)%nat ->
+  nth k (run_store cur (e2e_actions watch_step false None script n s)) PNone <> PErrNoCerts.
+Proof.
+  intros (j & Hj & l & Hl & Hu) Hk.
+  rewrite (e2e_periodic script None cur n s I).
+  rewrite (nth_indep _ PNone (store_pick (last_good cur (firstn (S 0) script)) n s))
+    by (now rewrite map_length, seq_length).
+  rewrite (map_nth (fun k => store_pick (last_good cur (firstn (S k) script)) n s)).
+  rewrite seq_nth by exact Hk. cbn [Nat.add].
+  apply store_pick_nonempty. apply last_good_nonempty. right. exists l. split; [|exact Hu].
+  apply (nth_error_firstn_in _ j); [exact Hl | lia].
+Qed.
+
+(* the loop as it was before 887d762: a source that has nothing for a moment (the files
+   are being replaced; only a README is left) takes the working set away *)
+Lemma empty_load_unpublishes_refuted :
+  exists script n s,
+    usable (nth 0 script LoadErr) <> None /\
+    run_store [] (e2e_actions watch_step_unrepaired false None script n s) = [PCert 0; PErrNoCerts; PErrNoCerts] /\
+    run_store [] (e2e_actions watch_step false None script n s) = [PCert 0; PCert 0; PCert 0].
+Proof.
+  exists [Loaded (Some good_a); Loaded (Some []); Loaded (Some [(bs "README", pf 9 None None)])],
+         (bs "a.example"), true.
+  split; [vm_compute; discriminate|]. split; vm_compute; reflexivity.
+Qed.
+
+Example e2e_example :
+  let script := [Loaded (Some orphan_key); Loaded (Some good_a); LoadErr; Loaded (Some []); Loaded (Some good_a)] in
+  run_store [] (e2e_actions watch_step false None script (bs "A.example.") true)
+    = [PErrNoCerts; PCert 0; PCert 0; PCert 0; PCert 0]
+  /\ watch_run watch_step false None script
+    = [ELoad; ESleep; ELoad; EPublish [[bs "a.example"]]; ELoad; ESleep; ELoad; ESleep; ELoad; ESleep]
+  /\ watch_run watch_step true None script = [ELoad; ESleep; ELoad; EPublish [[bs "a.example"]]].
 Proof. vm_compute. repeat split. Qed.
+
+(* what the property says, for the code: *)
+Lemma store_pick_presents certs sn strict :
+  certs <> [] -> (strict = true \/ 2 <= length certs)%nat ->
+  presents (folded certs) strict (normalize sn) (store_pick certs sn strict).
+Proof. intros H1 H2. now apply selects_presents, get_cert_spec. Qed.
+Lemma e2e_periodic_from_start script n s :
+  run_store [] (e2e_actions watch_step false None script n s) =
+  map (fun k => store_pick (last_good [] (firstn (S k) script)) n s) (seq 0 (length script)).
+Proof. now apply e2e_periodic. Qed.
